@@ -4,6 +4,7 @@ import (
 	"bytes"
 	"encoding/json"
 	"fmt"
+	"math"
 	"math/rand"
 	"os"
 	"os/exec"
@@ -30,7 +31,7 @@ func init() {
 }
 
 type tStep struct {
-	kind string        // T catastrophic timed, Q quick timed, I idle, S stop clock, P parallel timed, M parallel timed with one long deadline, N parallel quick timed, R quick timed overtaken between its two clock reads, G expect clock goroutine gone
+	kind string        // T catastrophic timed, Q quick timed, I idle, S stop clock, P parallel timed, M parallel timed with one long deadline, N parallel quick timed, R quick timed overtaken between its two clock reads, F timed match whose time goes into forward progress, C change the clock period, G expect clock goroutine gone
 	d    time.Duration // timeout or idle
 	k    int           // P: number of concurrent matches
 	e    int           // T, Q: entry point (index into entryNames)
@@ -42,6 +43,9 @@ func (s tStep) String() string {
 		return fmt.Sprintf("%s(%d)", s.kind, s.k)
 	case "S", "G":
 		return s.kind
+	}
+	if s.kind == "Q" && s.d > 1000*time.Hour {
+		return "Q(max)"
 	}
 	if s.e != 0 && (s.kind == "T" || s.kind == "Q") {
 		return fmt.Sprintf("%s(%v,%s)", s.kind, s.d, entryNames[s.e%len(entryNames)])
@@ -57,6 +61,10 @@ var (
 	lateSlack    = 40 * time.Millisecond
 	earlySlack   = 5 * time.Millisecond
 	overshootMax = 250 * time.Millisecond
+	// F steps: a match that never backtracks - 6000 iterations of a look-ahead running over 300,000
+	// runes (about a second of forward progress on this machine)
+	fwdPattern = `^(?:(?=.*$)a){6000}`
+	fwdInput   = []rune(strings.Repeat("a", 6000) + strings.Repeat("b", 300000))
 	// M steps: deadlines more than the clock's 1 s slop apart
 	mixedLong  = 1500 * time.Millisecond
 	mixedShort = 10 * time.Millisecond
@@ -174,9 +182,12 @@ func runTimedHistory(h []tStep, tol time.Duration) (obs []stepObs, snapshots []s
 			lastDeadline = t
 		}
 	}
+	curPeriod := clockPeriod
 	for _, s := range h {
 		o := stepObs{step: s}
 		switch s.kind {
+		case "F":
+			note(s.d)
 		case "T", "Q":
 			note(s.d)
 		case "P":
@@ -187,6 +198,36 @@ func runTimedHistory(h []tStep, tol time.Duration) (obs []stepObs, snapshots []s
 			note(s.d + 250*time.Millisecond)
 		}
 		switch s.kind {
+		case "C":
+			regexp2.SetTimeoutCheckPeriod(s.d)
+			curPeriod = s.d
+		case "F":
+			re := regexp2.MustCompile(fwdPattern, regexp2.None)
+			re.MatchTimeout = s.d
+			t := time.Now()
+			var err error
+			if s.e%2 == 0 {
+				_, err = re.FindRunesMatch(fwdInput)
+			} else {
+				_, err = re.MatchString(string(fwdInput))
+			}
+			lat := time.Since(t)
+			o.latency = lat
+			o.err = mon.ErrClass(err)
+			// the error text embeds the input: allow for building it
+			extra := 30*time.Millisecond + 2*(curPeriod-clockPeriod)
+			switch {
+			case err == nil:
+				o.suspect = fmt.Sprintf("a match that runs for about a second without backtracking finished after %v without a timeout", lat)
+			case !mon.IsTimeout(err):
+				o.suspect = "error other than a timeout: " + err.Error()[:min(len(err.Error()), 80)]
+			case lat < s.d-earlySlack-tol:
+				o.suspect = fmt.Sprintf("timeout after %v, earlier than the %v requested", lat, s.d)
+				o.missedBy = s.d - earlySlack - lat
+			case lat > s.d+lateSlack+tol+extra:
+				o.suspect = fmt.Sprintf("timeout only after %v for a %v timeout", lat, s.d)
+				o.missedBy = lat - s.d - lateSlack - extra
+			}
 		case "T":
 			lat, err := timedMatchE(s.d, catInput, s.e)
 			o.latency = lat
@@ -199,9 +240,9 @@ func runTimedHistory(h []tStep, tol time.Duration) (obs []stepObs, snapshots []s
 			case lat < s.d-earlySlack-tol:
 				o.suspect = fmt.Sprintf("timeout after %v, earlier than the %v requested", lat, s.d)
 				o.missedBy = s.d - earlySlack - lat
-			case lat > s.d+lateSlack+tol:
-				o.suspect = fmt.Sprintf("timeout only after %v for a %v timeout", lat, s.d)
-				o.missedBy = lat - s.d - lateSlack
+			case lat > s.d+lateSlack+tol+2*(curPeriod-clockPeriod):
+				o.suspect = fmt.Sprintf("timeout only after %v for a %v timeout (clock period %v)", lat, s.d, curPeriod)
+				o.missedBy = lat - s.d - lateSlack - 2*(curPeriod-clockPeriod)
 			}
 		case "Q":
 			lat, err := timedMatchE(s.d, quickInput, s.e)
@@ -441,8 +482,19 @@ func fixedHistories() [][]tStep {
 	P := func(k int) tStep { return tStep{kind: "P", k: k} }
 	M := func(k int) tStep { return tStep{kind: "M", k: k, d: mixedLong} }
 	N := func(k, ms int) tStep { return tStep{kind: "N", k: k, d: time.Duration(ms) * time.Millisecond} }
+	F := func(ms, e int) tStep { return tStep{kind: "F", d: time.Duration(ms) * time.Millisecond, e: e} }
+	C := func(ms int) tStep { return tStep{kind: "C", d: time.Duration(ms) * time.Millisecond} }
+	Qmax := tStep{kind: "Q", d: time.Duration(math.MaxInt64 - 1)}
 	R := func(k, ms int) tStep { return tStep{kind: "R", k: k, d: time.Duration(ms) * time.Millisecond} }
 	return [][]tStep{
+		{F(50, 0), T(20), F(120, 1), Q(50)}, // time spent in forward progress, not in backtracking
+		{T(20), I(1300), G, F(20, 1), F(50, 0)},
+		// the clock is started under a 100 ms period, the period is lowered to 1 ms while it runs: after
+		// one old period every deadline must be honoured at the new precision
+		{C(100), Q(5000), I(20), C(1), I(250), T(20), T(50), T(120), T(20), T(50), T(20), T(120), T(50), F(50, 0)},
+		// and raised: the window widens by two periods
+		{T(20), C(30), T(50), T(120), Q(5000), I(5), C(1), I(100), T(20), T(50)},
+		{T(20), Qmax, T(50), S, T(20)}, // a timeout one nanosecond below "never"
 		{R(2, 50), T(20)},
 		{T(20), I(1300), G, R(2, 50), T(20)},
 		{T(50), S, I(300), R(3, 5000), T(20)},
@@ -478,7 +530,7 @@ func randomHistory(rng *rand.Rand) []tStep {
 	n := 4 + rng.Intn(5)
 	longIdle, mixed := false, false
 	for i := 0; i < n; i++ {
-		switch rng.Intn(12) {
+		switch rng.Intn(13) {
 		case 0, 1, 2:
 			h = append(h, tStep{kind: "T", d: []time.Duration{20, 50, 120}[rng.Intn(3)] * time.Millisecond, e: rng.Intn(len(entryNames))})
 		case 3, 4:
@@ -499,6 +551,8 @@ func randomHistory(rng *rand.Rand) []tStep {
 			} else {
 				h = append(h, tStep{kind: "P", k: 2 + rng.Intn(5)})
 			}
+		case 12:
+			h = append(h, tStep{kind: "F", d: []time.Duration{20, 50, 120}[rng.Intn(3)] * time.Millisecond, e: rng.Intn(2)})
 		case 10:
 			h = append(h, tStep{kind: "R", k: 2 + rng.Intn(2), d: []time.Duration{50, 5000}[rng.Intn(2)] * time.Millisecond})
 		case 11:
@@ -587,7 +641,7 @@ func c14ChildMain(spec string) int {
 func historyBudget(h []tStep) time.Duration {
 	d := 20 * time.Second
 	for _, s := range h {
-		d += s.d + time.Second
+		d += min(s.d, 10*time.Second) + time.Second
 	}
 	return d
 }
@@ -714,7 +768,7 @@ func runC14(r *core.Run) int {
 	r.Workers = 1
 	r.Extras["bounds"] = map[string]any{"histories": len(histories), "clock_period": clockPeriod.String(), "window": fmt.Sprintf("[d-%v, d+%v] (+5ms per concurrent match)", earlySlack, lateSlack), "timeouts": "20/50/120 ms", "idles": "5 ms, 300 ms, 1.3 s, 2.5 s", "isolation": "every history runs in its own child process under a watchdog"}
 	return r.Finish(
-		"histories of timed catastrophic matches T(d) through ten entry points (FindRunesMatch, FindStringMatch, MatchString, MatchRunes, Replace, ReplaceFunc, Split, FindAllStringIndex, FindNextMatch, FindStringMatchStartingAt; must fail with a timeout inside [d-5ms, d+40ms]), timed quick matches Q(d) (must not report a timeout), idle gaps shorter and longer than timeout + the clock's 1 s slop (after the long ones the clock goroutine must be gone and timeouts must still fire), StopTimeoutClock calls (must return and leave no clock goroutine) concurrent timed matches with different deadlines P(k), N(k): k quick matches with a generous timeout whose deadline computations are held at the hook point until all have looked at the clock (none may report a timeout), R(k): a quick match held between its two lock-free clock reads while k-1 others run to completion, and M(k): one 1.5 s and k-1 10 ms deadlines computed together (the hook point between the unlocked look at the clock's end and its locked extension holds the long one until the others arrive, then lets it go first) on clocks that never ran, were stopped, ran out or are running, with a 1 ms clock period; each history runs in a fresh child process under a watchdog (a match whose timeout never fires cannot hang the check); 27 hand-ordered histories covering every predecessor/successor pair that matters plus seeded random ones; evaluation = one step; non-trivial = distinct history",
+		"histories of timed catastrophic matches T(d) through ten entry points (FindRunesMatch, FindStringMatch, MatchString, MatchRunes, Replace, ReplaceFunc, Split, FindAllStringIndex, FindNextMatch, FindStringMatchStartingAt; must fail with a timeout inside [d-5ms, d+40ms]), timed quick matches Q(d) (must not report a timeout), idle gaps shorter and longer than timeout + the clock's 1 s slop (after the long ones the clock goroutine must be gone and timeouts must still fire), StopTimeoutClock calls (must return and leave no clock goroutine) concurrent timed matches with different deadlines P(k), N(k): k quick matches with a generous timeout whose deadline computations are held at the hook point until all have looked at the clock (none may report a timeout), F(d): a match that spends a second in forward progress without ever backtracking (must time out like T), C(p): SetTimeoutCheckPeriod while the clock runs (after one old period deadlines must be honoured at the new precision; the window widens by two periods), Q(max): a timeout of MaxInt64-1 ns (must not fire), R(k): a quick match held between its two lock-free clock reads while k-1 others run to completion, and M(k): one 1.5 s and k-1 10 ms deadlines computed together (the hook point between the unlocked look at the clock's end and its locked extension holds the long one until the others arrive, then lets it go first) on clocks that never ran, were stopped, ran out or are running, with a 1 ms clock period; each history runs in a fresh child process under a watchdog (a match whose timeout never fires cannot hang the check); 32 hand-ordered histories covering every predecessor/successor pair that matters plus seeded random ones; evaluation = one step; non-trivial = distinct history",
 		[]string{"wall-clock verdicts: a miss is a suspect, re-executed 3 times in fresh processes with scheduler overshoot measured; a timing miss counts only if it exceeds twice the overshoot measured in the same run (+5 ms); violation only if reproduced 3/3, otherwise inconclusive", "millisecond-level accuracy is not claimed"},
 		map[string]int64{"evaluations": 40, "distinct_nontrivial": 10, "step_T": 10, "step_G": 3, "step_S": 3})
 }
